@@ -18,7 +18,7 @@ def doc_class():
     if _doc:
         return _doc["Doc"]
     F = CT.fixtures()
-    S, Color, Facing = F["S"], F["Color"], F["Facing"]
+    S, Color, Facing, Opp = F["S"], F["Color"], F["Facing"], F["Opp"]
 
     class Inner(S.Serializable):
         a: int = 0
@@ -45,6 +45,9 @@ def doc_class():
         s: str = ""
         e: Color = Color.RED
         z: Facing = Facing.SOUTH
+        o: Opp = Opp.NORTH
+        lo: List[Opp] = None
+        do: Dict[Opp, int] = None
         lz: List[Facing] = None
         dz: Dict[Facing, int] = None
         n: Inner = S.Default
